@@ -5,7 +5,10 @@ set -e
 cd "$(dirname "$(readlink -f "$0")")"
 export CARGO_NET_OFFLINE=true
 (cd harness && cargo build --offline --profile checked 2>&1 | tail -1 && cargo build --offline --profile fast 2>&1 | tail -1)
-(cd spec && for m in AbyLayout AbyHash AbyCodec AbyMap AbyBulk AbyStore AbyScan AbyBuf AbyDb AbyTrace MCStore MCScan MCDb MCBulk MCCodec MCHash MCLayout; do
+(cd spec && for m in AbyLayoutArith AbyLayout AbyHash AbyCodec AbyFormat AbyMap AbyBulk AbyStore AbyScan AbyBuf AbyDb AbyReg AbyTrace MCStore MCStoreB MCScan MCDb MCReg MCBulk MCCodec MCHash MCLayout; do
    tla-sany $m.tla > /tmp/sany_$$.log 2>&1 || { cat /tmp/sany_$$.log; echo "SANY failed on $m"; exit 2; }; done; rm -f /tmp/sany_$$.log)
-bin/selftest | tail -9
+# the proofs (TLAPS) about AbyLayoutArith, AbyBuf and AbyReg
+(cd spec/proofs && for m in AbyLayoutProofs AbyBufProofs AbyRegProofs; do
+   tlapm -I .. --cache-dir ../../out/tlacache_setup --threads 8 $m.tla 2>&1 | grep -E "obligations (proved|failed)" || { echo "tlapm failed on $m"; exit 2; }; done; rm -rf ../../out/tlacache_setup)
+bin/selftest | tail -12
 echo setup ok
